@@ -564,6 +564,33 @@ static double vp_strtod(char *p, char **end) { g_calls++; _Bool ok = g_calls == 
                    stubs=['strtod (arbitrary: parses a number or not; arbitrary value)'])
 
 
+def h_valueline_accepts():
+    """the reader accepts every primal / dual value line the writer writes: the line is the text of a finite double ("{:.16}": digits,
+    possibly a point and an exponent, ending in a digit) followed by a newline.  strtod consumes the whole number; the C standard lets it
+    report ERANGE for a correctly parsed subnormal (glibc does): the value is still the value written and must be accepted."""
+    from specs import C14
+    parts = ['''#include "mp_shim.h"
+int vp_one;
+char g_line[64]; size_t g_len;      /* the number text: g_len >= 1 characters, the last one a digit, then a newline */
+double g_value; int vp_errno;
+#define errno vp_errno
+#ifndef ERANGE
+#define ERANGE 34
+#endif
+/* strtod on a line the writer wrote: consumes exactly the number text, yields its value; errno may be set to ERANGE (underflow) or left alone */
+static double vp_strtod(const char *p, char **end) { __CPROVER_assert(p == g_line, "the value line is parsed from its beginning"); *end = (char *)p + g_len;
+  if (nondet_bool()) vp_errno = ERANGE; return g_value; }
+#define strtod vp_strtod
+''',
+             Fn(C14.HPP, r'inline int decstring\(const char \*buf, double \*val\)', 'int decstring(const char *buf, double *val)',
+                contract='__CPROVER_requires(g_len >= 1 && g_len <= 40 && g_line[g_len - 1] >= \'0\' && g_line[g_len - 1] <= \'9\' && buf == g_line && __CPROVER_w_ok(val, sizeof(double)) && g_value == g_value) '
+                         '__CPROVER_ensures(__CPROVER_return_value == 0 && *val == g_value) __CPROVER_assigns(*val, vp_errno)',
+                label='mp::decstring', nmatches=1),
+             'void harness(void) { vp_one = 1; g_len = nondet_size_t(); g_value = nondet_double(); double v; decstring(g_line, &v); VP_REACH("normal return"); }\n']
+    return Harness('C05.reader.valueline.accepts', 'C05', parts, enforce='decstring', replay=replay_writer,
+                   stubs=['strtod (consumes the number the writer wrote; may set errno to ERANGE as the C standard allows for subnormal results)'])
+
+
 def h_table_accepts():
     """gsufread reads a table the writer wrote completely: the writer emits the table text T (tablen = |T| + 1, tablines = 1 + number of
     newlines in T) followed by a newline; for every line but the last the reader must offer fgets room for the whole line, and it must
@@ -609,4 +636,4 @@ void harness(void) { vp_one = 1; SR.h.tablen = nondet_long(); SR.tablines = nond
 
 
 def harnesses():
-    return [h_main(), h_table_accepts(), h_options_count_accepts(False), h_options_count_accepts(True), h_size_check_accepts('vars'), h_size_check_accepts('cons'), h_objno_accepts(), h_suffix_block(), h_value_writer(False), h_value_writer(True), h_visit_values('int'), h_visit_values('double'), h_counter(), h_sufhead_accepts()]
+    return [h_main(), h_table_accepts(), h_options_count_accepts(False), h_options_count_accepts(True), h_size_check_accepts('vars'), h_size_check_accepts('cons'), h_objno_accepts(), h_valueline_accepts(), h_suffix_block(), h_value_writer(False), h_value_writer(True), h_visit_values('int'), h_visit_values('double'), h_counter(), h_sufhead_accepts()]
